@@ -264,6 +264,33 @@ def r6_worker_deferral(ctx):
             else:
                 ctx.ok("C02.R6", loc(fi, ex[0].node), f"script '{name}': executed once, after message #{expect_after}")
     ctx.floor("C02.R6.scripts", len(scripts), 4)
+    # a dataset that arrived while a sequence was waiting for it stays known: a later sequence consuming it starts at once
+    T2 = Atom("T2")
+    ts2 = Obj(M + "TaskSequence", {"worker": W, "tasks": [T2], "publish": set()}, name="TS2")
+    tdef = Obj("cascade.low.core.TaskInstance", {"definition": Obj("cascade.low.core.TaskDefinition", {"output_schema": {"0": "Any"}})})
+    rc2 = Obj("cascade.executor.runner.entrypoint.RunnerContext", {
+        "workerId": W, "callback": "addr", "param_source": {T: {0: D1, "kw": D2}, T2: {0: D1}},
+        "job": Obj("cascade.low.core.JobInstance", {"serdes": {}, "tasks": {T: tdef, T2: tdef}})})
+    for name, msgs, want in (("second consumer of a dataset that arrived while the first was waiting", [ts, pub(D1), pub(D2), ts2, stop], [3, 4]),
+                             ("second consumer of a dataset announced before any sequence", [pub(D1), pub(D2), ts, ts2, stop], [3, 4])):
+        marks = []
+
+        def model2(run, args, kwargs, node, fr, _m=msgs):
+            marks.append(len(run.effects))
+            return _m[len(marks) - 1] if len(marks) <= len(_m) else stop
+        paths = Interp(repo, call_models={"cascade.executor.serde.des_message": model2}, max_while=len(msgs) + 1).explore(fi, args={"runnerContext": rc2})
+        ctx.evals(len(paths))
+        if len(paths) != 1:
+            ctx.undecided("C02.R6", loc(fi), f"worker loop not deterministic on script '{name}': {len(paths)} paths")
+            continue
+        ex = [e for e in paths[0].effects if is_call(e, qual="cascade.executor.runner.entrypoint.execute_sequence")]
+        when = [sum(1 for m_ in marks if m_ <= e.seq) for e in ex]
+        if when != want or paths[0].exit[0] != "return":
+            ctx.violation("C02.R6", fi.qual, loc(fi), "a later consumer of an arrived dataset runs",
+                          f"script '{name}': sequences executed after messages {when} (loop ends {paths[0].exit[0]}); expected {want} — the second sequence needs only D1, "
+                          f"which this worker has already received, and no further announcement of D1 will ever come")
+        else:
+            ctx.ok("C02.R6", loc(fi), f"script '{name}': both sequences executed, the second at once")
 
 
 def r7_reidle(ctx):
@@ -434,10 +461,11 @@ RULES.append(r_store_before_announce)
 
 def r_message_dedup(ctx):
     """a TaskSequence re-sent by the acknowledged-send layer reaches the worker once: listener duplicate detection (rules C06.R4/R5/R7, lazy import)"""
-    from .C06 import r4_r5_listener, r3_retry_and_ack
+    from .C06 import r4_r5_listener, r3_retry_and_ack, r7b_acked_container_never_forgets
 
     r4_r5_listener(ctx)
     r3_retry_and_ack(ctx)
+    r7b_acked_container_never_forgets(ctx)
 
 
 RULES.append(r_message_dedup)
@@ -500,3 +528,7 @@ def r10_one_round_exactly_once(ctx):
 
 
 RULES.append(r10_one_round_exactly_once)
+
+from .common import lazy  # noqa: E402
+RULES.append(lazy("sched", "r_assignment_outputs", "completion of a task is inferred from the publication of its last output: every output must be published"))
+RULES.append(lazy("C03", "r6_loop_wiring", "the assignment generator is run to exhaustion, so the bookkeeping of every dispatched assignment is done before the next round"))
